@@ -25,7 +25,11 @@ const canary = 0xC7
 
 // decodeIn runs Decode on input placed in the middle of a canary-filled
 // arena. spare=false gives the slice cap == len.
-func decodeIn(c DCase, spare bool) (fail string, accepted bool, n int) {
+func decodeIn(c DCase, spare bool) (fail string, accepted bool, n int) { return decodeInUsed(c, spare, nil) }
+
+// decodeInUsed is decodeIn with a message object that has decoded the packet
+// prev before (nil: a fresh object).
+func decodeInUsed(c DCase, spare bool, prev []byte) (fail string, accepted bool, n int) {
 	const pad = 96
 	arena := make([]byte, pad+len(c.Input)+pad)
 	for i := range arena {
@@ -41,6 +45,9 @@ func decodeIn(c DCase, spare bool) (fail string, accepted bool, n int) {
 	m, err := message.Type(c.Decoder).New()
 	if err != nil {
 		return "", false, 0
+	}
+	if prev != nil {
+		m.Decode(clone(prev))
 	}
 	var derr error
 	panicked := func() (p interface{}) {
@@ -98,6 +105,18 @@ func checkDecode(c DCase) (fail string, classes []string) {
 	}
 	if acc1 != acc2 || n1 != n2 {
 		return fmt.Sprintf("%s.Decode decides differently depending on the capacity behind the slice: accepted %v/%v, n %d/%d (%s)", codec.TypeName(c.Decoder), acc1, acc2, n1, n2, c.Origin), nil
+	}
+	// a message object that was used before (the library decodes the CONNECT of a resumed
+	// session into the session's existing object): same decision, same count, and every
+	// field it then exposes lies inside THIS input
+	for pi, prev := range usedWith(c.Decoder) {
+		f3, acc3, n3 := decodeInUsed(c, false, prev)
+		if f3 != "" {
+			return fmt.Sprintf("%s [message object that had decoded base packet #%d of its type before: %x]", f3, pi, clipb(prev)), nil
+		}
+		if acc3 != acc1 || n3 != n1 {
+			return fmt.Sprintf("%s.Decode decides differently for a message object that had decoded another packet (%x) before: accepted %v/%v, n %d/%d (%s)", codec.TypeName(c.Decoder), clipb(prev), acc1, acc3, n1, n3, c.Origin), nil
+		}
 	}
 	// the well-formed direction: strict-valid packets of the decoder's type, exactly filling the slice
 	p, pn, perr := codec.Decode(c.Input)
